@@ -324,7 +324,7 @@ class ParametricModelBaseMixin(object):
 
     @classmethod
     def _get_object_type_name(cls):
-        return "parametric_model"
+        return "model"
 
     def _calculate_total_error(self):
         # relative errors refer to the model values: bring them up to date before the error sources are summed
